@@ -745,6 +745,13 @@ impl StorageEngine {
 
     /// Add a member with score to a sorted set - NO access time tracking
     pub fn zadd(&self, db: DatabaseIndex, key: Key, member: Vec<u8>, score: f64) -> Result<bool> {
+        // A score that is not a number can never be stored
+        if score.is_nan() {
+            return Err(FerrousError::Command(CommandError::Generic(
+                "value is not a valid float".to_string()
+            )));
+        }
+        
         let shard = self.get_shard(db, &key)?;
         let mut shard_guard = shard.write().unwrap();
         
